@@ -528,7 +528,7 @@ func init() {
 		Real: []string{"pppoe.Server handleDiscovery/handleSession and everything below (PADI/PADR/PADT, LCP, PAP, IPCP, IP handlers)", "pppoe.SessionManager", "pppoe.IPPool",
 			"radius.Client.Authenticate (3 attempts, rate limiter)", "pppoe.Server.cleanupLoop on the virtual clock", "the go startLCPNegotiation goroutine as a scheduler task"},
 		Stub:         []string{"raw socket (in-memory, via the package's rawSocket seam)", "RADIUS server and transport", "peers"},
-		Rule:         "cases: 4-30 discovery/session frames (PADI, PADR, PADT, LCP cfg-req/ack/nak/term/echo, PAP good/bad, IPCP cfg-req/ack, IP) in generated (out-of-protocol) order from 1-3 peers, each from the owner MAC, another peer's MAC or an outsider MAC, with RADIUS accept/reject/timeout; non-trivial = >=3 frames handled and (a fault fired or >2 context switches); distinct = distinct (case hash, schedule fingerprint)",
+		Rule:         "cases: 4-30 discovery/session frames (PADI, PADR, PADT, LCP cfg-req/ack/nak/term/echo, PAP good/bad, IPCP cfg-req/ack, IP) in generated (out-of-protocol) order from 1-3 peers, each from the owner MAC, another peer's MAC or an outsider MAC, with RADIUS accept/reject/timeout, and server-initiated disconnects (pppoe.SessionTeardown over the server's session table) running while the peer's frames keep arriving; non-trivial = >=3 frames handled and (a fault fired or >2 context switches); distinct = distinct (case hash, schedule fingerprint)",
 		QuickRuns:    20000,
 		ThoroughRuns: 1500000,
 		Assumptions: []string{"frames are handed to the handlers one at a time, as the single receive loop does", "activity counters/timestamps are not part of 'changing' a session",
